@@ -85,6 +85,31 @@ def ctx_get(obs, key):
     return MISSING
 
 
+def expect_to_json(expect):
+    """an expectation as JSON (ANY <-> {'any': 1}); tuples become lists, which `judge` reads the same way"""
+    def enc_(x):
+        if x is ANY:
+            return {'any': 1}
+        if isinstance(x, (list, tuple)):
+            return [enc_(y) for y in x]
+        if isinstance(x, dict):
+            return {k: enc_(v) for k, v in x.items()}
+        return x
+    return enc_(expect)
+
+
+def expect_from_json(expect):
+    def dec_(x):
+        if x == {'any': 1}:
+            return ANY
+        if isinstance(x, list):
+            return [dec_(y) for y in x]
+        if isinstance(x, dict):
+            return {k: dec_(v) for k, v in x.items()}
+        return x
+    return dec_(expect)
+
+
 def judge(expect, obs):
     out = []
     trace = obs.get('trace', [])
@@ -167,6 +192,14 @@ def judge(expect, obs):
         for k, v in expect['first_keys'].items():
             if kk.get(k) != v:
                 out.append(f'in-argument {k!r} seen by the body as {kk.get(k)!r}, expected {v!r}')
+    if 'first_keys_of' in expect:
+        tg, want = expect['first_keys_of']
+        ev = next((e for e in trace if e['tag'] == tg), None)
+        if ev is not None:
+            kk = dict((k, v) for k, v in ev['keys'])
+            for k, v in want.items():
+                if kk.get(k) != v:
+                    out.append(f'step {tg} sees context[{k!r}] = {kk.get(k)!r}, expected {v!r}')
     if 'after_keys_missing' in expect:
         last = next((e for e in reversed(trace) if e['tag'] == 'AFTER'), None)
         if last is not None:
